@@ -15,7 +15,7 @@ WARM = None
 MAX_PARALLEL = 16
 RULE = (
     "Hypothesis-generated sequences (length 2-10, with repetitions) of (kernel, --arch, options) drawn from the "
-    "shipped kernels plus variants with a form feed / vertical tab on one line, with an unknown mnemonic, with a read-modify-write / memory-composed "
+    "shipped kernels plus variants padded to 50 and more lines (multi-process search), with a form feed / vertical tab on one line, with an unknown mnemonic, with a read-modify-write / memory-composed "
     "instruction, and with stack-pointer traffic (write-back through sp; store, sp arithmetic, load), mixing ISAs, models and --fixed / -f / --ignore-unknown; each sequence runs in one fresh process "
     "(a) through osaca.osaca.run element by element and (b) library style with one MachineModel/ArchSemantics per "
     "architecture reused for all its kernels (how Kerncraft embeds OSACA). Oracle: every report equals, apart from "
@@ -65,9 +65,16 @@ def sequences(draw, kernels):
     for _ in range(draw(st.integers(1, 4))):
         name, isa, lines = draw(st.sampled_from(kernels))
         archs = env.X86_ARCHS if isa == "x86" else env.A64_ARCHS
-        var = draw(st.sampled_from([None, None, "unknown", "rmw", "composed", "stack", "stackwb", "odd-whitespace"]))
+        var = draw(st.sampled_from([None, None, "unknown", "rmw", "composed", "stack", "stackwb", "odd-whitespace", "big", "big"]))
         body = list(lines)
-        if var == "odd-whitespace":
+        if var == "big":
+            # padded to 50 and more lines with independent instructions: the multi-process LCD search is used
+            from checks.c16 import PAD
+            i_ = 0
+            while len(body) < 52:
+                body.insert((i_ * 5) % max(1, len(body)), PAD[isa][i_ % 20])
+                i_ += 1
+        elif var == "odd-whitespace":
             # a form feed / vertical tab next to the tokens of one line: whatever the tool makes of such a file
             # (report or parse error), it has to be the same after other analyses as in a fresh process
             pos = draw(st.integers(0, len(body) - 1))
